@@ -25,6 +25,7 @@ GROUP = dict(
         dict(id='theory.fmt', kind='raw', text=_fmt_text),
         dict(id='theory.canon', kind='raw', text=_c.theory_text('canon.rs')),
         dict(id='theory.serde', kind='raw', text=_c.theory_text('serde.rs')),
+        dict(id='theory.serde_post', kind='raw', text=_c.theory_text('serde_post.rs')),
         _c.contract_only('parse', 'U-parse.from_str'),
         dict(id='T.PurlVisitor', kind='struct', name='PurlVisitor', file='purl/src/parse.rs'),
         # impl Serialize: body verbatim `serializer.collect_str(self)`
